@@ -176,7 +176,7 @@ theorem entry_ruleSet (items : LexerDef) (c : Compiled) (h : compileLexer items 
 /-- `return None` happens only in state 0 on an exhausted iterator, with no end-of-input match, and does
 not touch the user state -/
 theorem scanPlain_fin_inv (cfg : Config σ τ ε) (hm : MachineOK cfg) (ns : Nat → Option Nat)
-    (hns : DispatchOK cfg.dfa ns) (st' : LState σ) :
+    (hns : DispatchOK cfg.dfa cfg.inl ns) (st' : LState σ) :
     ∀ (iter : List Nat) (s : Nat) (st : LState σ), scanPlain cfg ns s iter st = .fin st' →
       iter = [] ∧ s = 0 ∧ st'.user = st.user ∧
       ∀ accs a, (cfg.dfa.st s).eoi = some (.accept accs) → firstOK (fun i => ctxOK cfg i []) accs ≠ some a := by
@@ -251,7 +251,7 @@ theorem scanPlain_zero_nil_ne_err (cfg : Config σ τ ε) (ns : Nat → Option N
 
 /-- the number 0 names state 0 only -/
 theorem entry_of_state_zero (cfg : Config σ τ ε) (hm : MachineOK cfg) (e : Nat) (he : IsEntry cfg e)
-    (h : renumber (inlinedStates cfg.dfa) e = 0) : e = 0 := by
+    (h : renumber cfg.inl e = 0) : e = 0 := by
   have h1 := NextProtocol.dispatch_entry cfg hm e he
   have h2 := NextProtocol.dispatch_entry cfg hm 0 (Or.inl rfl)
   rw [NextProtocol.renumber_zero] at h2
@@ -263,7 +263,7 @@ theorem entry_of_state_zero (cfg : Config σ τ ε) (hm : MachineOK cfg) (e : Na
 /-- The loop of `next()`, for any configuration on the compiled machine whose entries are entries of rule
 sets of the definition with the language-level reading of their matches. -/
 theorem nextLoop_refines (items : LexerDef) (c : Compiled) (ctxAt : Nat → Regex) (cfg : Config σ τ ε)
-    (hm : MachineOK cfg) (hdfa : cfg.dfa = c.dfa)
+    (hm : MachineOK cfg)
     (HE : ∀ e, IsEntry cfg e →
       ∃ name rs b k rules, (name, rs, b, k) ∈ allRuleSets items ∧ IsEntryOf items c name e ∧
         coreRules rs b k = some rules ∧
@@ -287,21 +287,21 @@ theorem nextLoop_refines (items : LexerDef) (c : Compiled) (ctxAt : Nat → Rege
       have hd' : st.done = false := by simpa using hd
       obtain ⟨hl, hsi, e0, he0, hst0⟩ := hr
       have hr : Ready cfg st := ⟨hl, hsi, e0, he0, hst0⟩
-      have hdisp : dispatch (stateArms cfg.dfa) st.state = some e0 := by
+      have hdisp : dispatch (stateArms cfg.dfa cfg.inl) st.state = some e0 := by
         rw [hst0]
         exact NextProtocol.dispatch_entry cfg hm e0 he0
       simp only [hdisp] at h
       obtain ⟨name, rs, b, k, rules, hmem, hent, hcore, hiff⟩ := HE e0 he0
-      have hact : ActiveIn items c st name := ⟨hl, hsi, e0, hent, by rw [← hdfa]; exact hst0⟩
+      have hact : ActiveIn items c cfg.inl st name := ⟨hl, hsi, e0, hent, hst0⟩
       have hns := dispatchOK_of_machineOK cfg hm
       have heq := scan_eq_scanPlain cfg _ hm.flags hm.acceptAny hm.targets hns e0 st.iter st
         (by intro h; rw [hl] at h; cases h)
       have hround := NextProtocol.round_ok cfg hm st hr e0 he0
       have hnoL : (∀ n a v, ¬ Cand cfg e0 st.iter n a v) → ∀ n a v, ¬ LangCand rules ctxAt st.iter n a v :=
         fun hno n a v hL => hno n a v ((hiff st.iter n a v).mpr hL)
-      cases ho : scan cfg (dispatch (stateArms cfg.dfa)) e0 st.iter st with
+      cases ho : scan cfg (dispatch (stateArms cfg.dfa cfg.inl)) e0 st.iter st with
       | act a st1 =>
-        have hx : execState cfg (dispatch (stateArms cfg.dfa)) e0 st.iter st = callAction cfg a st1 := by
+        have hx : execState cfg (dispatch (stateArms cfg.dfa cfg.inl)) e0 st.iter st = callAction cfg a st1 := by
           unfold execState
           rw [ho]
           rfl
@@ -324,7 +324,7 @@ theorem nextLoop_refines (items : LexerDef) (c : Compiled) (ctxAt : Nat → Rege
           exact RefNext.cont st name rs b k rules n a ve s' st2 r hd' hmem hcore hact hsel
             (by rw [← hst1']; exact hca) (ih st2 hc2.ready r h)
       | err loc st1 =>
-        have hx : execState cfg (dispatch (stateArms cfg.dfa)) e0 st.iter st = .ret (some (.invalid loc)) st1 := by
+        have hx : execState cfg (dispatch (stateArms cfg.dfa cfg.inl)) e0 st.iter st = .ret (some (.invalid loc)) st1 := by
           unfold execState
           rw [ho]
           rfl
@@ -348,7 +348,7 @@ theorem nextLoop_refines (items : LexerDef) (c : Compiled) (ctxAt : Nat → Rege
           rw [hiter]
           exact List.drop_eq_nil_of_le (by omega)
       | fin st1 =>
-        have hx : execState cfg (dispatch (stateArms cfg.dfa)) e0 st.iter st = .ret none st1 := by
+        have hx : execState cfg (dispatch (stateArms cfg.dfa cfg.inl)) e0 st.iter st = .ret none st1 := by
           unfold execState
           rw [ho]
           rfl
@@ -390,7 +390,7 @@ theorem next_refines_ref (items : LexerDef) (c : Compiled) (h : compileLexer ite
     RefNext items c ctxAt (c.config actions width input) st r := by
   have hm := compileLexer_machineOK items c h hok actions width input
   unfold next at hn
-  exact RefRefine.nextLoop_refines items c ctxAt (c.config actions width input) hm rfl
+  exact RefRefine.nextLoop_refines items c ctxAt (c.config actions width input) hm
     (fun e he => RefRefine.entry_ruleSet items c h hok ctxAt hnum actions width input e he)
     _ st hr r hn
 
